@@ -46,11 +46,11 @@ func (sb *schemaBuilder) getType(nodeType reflect.Type, forceListEntryNonNull bo
 		return &graphql.NonNull{Type: &graphql.Enum{Type: typeName, Values: values, ReverseMap: sb.enumMappings[nodeType].ReverseMap}}, nil
 	}
 
-	if typeName, ok := getScalar(nodeType); ok {
+	if typeName, ok := getScalar(nodeType); ok && !marshalsAsText(nodeType) {
 		return &graphql.NonNull{Type: &graphql.Scalar{Type: typeName}}, nil
 	}
 	if nodeType.Kind() == reflect.Ptr {
-		if typeName, ok := getScalar(nodeType.Elem()); ok {
+		if typeName, ok := getScalar(nodeType.Elem()); ok && !marshalsAsText(nodeType.Elem()) {
 			return &graphql.Scalar{Type: typeName}, nil // XXX: prefix typ with "*"
 		}
 	}
@@ -93,6 +93,18 @@ func (sb *schemaBuilder) getType(nodeType reflect.Type, forceListEntryNonNull bo
 	default:
 		return nil, fmt.Errorf("bad type %s: should be a scalar, slice, or struct type", nodeType)
 	}
+}
+
+// marshalsAsText reports whether typ is a named alias of a built-in scalar
+// (type Color int32) that implements encoding.TextMarshaler. encoding/json
+// renders such a value through MarshalText, i.e. as a JSON string, so it is
+// exposed as a text scalar like every other text marshaler rather than under
+// the name of its underlying kind.
+func marshalsAsText(typ reflect.Type) bool {
+	if _, builtin := scalars[typ]; builtin {
+		return false
+	}
+	return typ.Implements(textMarshalerType)
 }
 
 // getTextMarshalerType returns a graphQL type that can be used to parse a
